@@ -132,6 +132,8 @@ def _run_group(R, pid, g, tier, seed, scratch, infos):
         R.undecided.append(f'kani: no harness selected for {pid} in {pkg}')
         return
     to = g.get('harness_timeout_' + tier, g.get('harness_timeout', 600 if tier == 'quick' else 1800))
+    if os.environ.get('VERIF_ONLY') and os.environ.get('VERIF_HARNESS_TIMEOUT'):
+        to = int(os.environ['VERIF_HARNESS_TIMEOUT'])  # development aid, partial runs only
     jobs = g.get('jobs', 12)
     res_json = os.path.join(scratch, f'kani_results_{pkg}.json')
     log = os.path.join(scratch, f'kani_{pkg}.log')
